@@ -6,7 +6,6 @@ decoder accepts them is decided in the check, which keeps only accepted inputs.
 
 from __future__ import annotations
 
-import ipaddress
 import struct
 
 from hypothesis import strategies as st
